@@ -56,6 +56,7 @@ class Batch:
   def __init__(self, scratch, leg, prop, tier, pairs, workers, repo,
                hashseed='0', tag='main'):
     self.leg = leg
+    self.skipped = 0
     self.procs = []
     self.outs = []
     workers = max(1, min(workers, len(pairs)))
@@ -106,6 +107,9 @@ class Batch:
             continue
           if r.get('done'):
             done = True
+            continue
+          if r.get('skipped'):
+            self.skipped += 1
             continue
           r['_leg'] = self.leg['name']
           res.append(r)
@@ -246,6 +250,7 @@ def do_check(args, prop, tier, scratch, t_start):
     selftest_pairs.append((leg, pairs[:n_self]))
     leg_summaries.append({'leg': leg['name'], 'engine': leg['engine'],
                           'runs': len(res),
+                          'runs_skipped_after_first_violation': b.skipped,
                           'wall_sum_s': round(sum(r.get('wall', 0) for r in res), 2)})
   for r in all_results:
     if 'harness_error' in r:
